@@ -115,8 +115,10 @@ def run(ctx: Ctx):
 
 def update_degree(ctx: Ctx):
     repo, res = ctx.repo, ctx.res
+    from ..inline import with_inlined
+
     for qname, seeds, rets, selfattrs, lists, names, label in SPECS:
-        f = repo.func(qname)
+        f = with_inlined(repo, repo.func(qname))  # private methods / module helpers of the driver are expanded
         missing = [p for p in seeds if p not in f.all_params]
         if missing:
             raise AnalysisError(f"UPDATE-DEGREE: {qname} no longer has parameter(s) {missing}")
